@@ -30,15 +30,77 @@ theorem coresOn_other (slots : List Slot) (idx j : Nat) (h : ∀ sl ∈ slots, s
   rw [filter_eq_nil_iff.mpr (fun sl hs => by simp [h sl hs, hj.symm])]
   rfl
 
+/-- the GPU indices a list of slots names on the node with index `idx` -/
+def gpusOn (slots : List Slot) (idx : Nat) : List Nat :=
+  (slots.filter (fun sl => sl.node = idx)).flatMap (fun sl => sl.gpus.map (·.1))
+
+/-- node-local storage / memory a list of slots takes on the node with index `idx` -/
+def lfsOn (slots : List Slot) (idx : Nat) : Nat := ((slots.filter (fun sl => sl.node = idx)).map (·.lfs)).sum
+def memOn (slots : List Slot) (idx : Nat) : Nat := ((slots.filter (fun sl => sl.node = idx)).map (·.mem)).sum
+
+theorem gpusOn_append (a b : List Slot) (idx : Nat) : gpusOn (a ++ b) idx = gpusOn a idx ++ gpusOn b idx := by
+  simp [gpusOn, filter_append, flatMap_append]
+theorem lfsOn_append (a b : List Slot) (idx : Nat) : lfsOn (a ++ b) idx = lfsOn a idx + lfsOn b idx := by
+  simp [lfsOn, filter_append]
+theorem memOn_append (a b : List Slot) (idx : Nat) : memOn (a ++ b) idx = memOn a idx + memOn b idx := by
+  simp [memOn, filter_append]
+
+theorem filter_node_nil (slots : List Slot) (idx : Nat) (h : ∀ sl ∈ slots, sl.node ≠ idx) :
+    slots.filter (fun sl => sl.node = idx) = [] :=
+  filter_eq_nil_iff.mpr (fun sl hs => by simpa using h sl hs)
+
+theorem filter_node_all (slots : List Slot) (idx : Nat) (h : ∀ sl ∈ slots, sl.node = idx) :
+    slots.filter (fun sl => sl.node = idx) = slots :=
+  filter_eq_self.mpr (fun sl hs => by simpa using h sl hs)
+
 /-- a set of slots can be placed on the node map: every slot lies on a node of the map, and on
-    every node the cores named are pairwise distinct and FREE -/
+    every node the cores named are pairwise distinct and FREE, the GPUs named are FREE, and the
+    storage and memory asked for fit what the node has left -/
 structure Placeable (nodes : List NodeSt) (slots : List Slot) : Prop where
   onNode : ∀ sl ∈ slots, ∃ n ∈ nodes, n.index = sl.node
   nodup  : ∀ n ∈ nodes, (coresOn slots n.index).Nodup
   free   : ∀ n ∈ nodes, ∀ c ∈ coresOn slots n.index, n.cores[c]? = some Occ.free
+  gfree  : ∀ n ∈ nodes, ∀ g ∈ gpusOn slots n.index, n.gpus[g]? = some Occ.free
+  lfsFit : ∀ n ∈ nodes, ((lfsOn slots n.index : Nat) : Int) ≤ n.lfs
+  memFit : ∀ n ∈ nodes, ((memOn slots n.index : Nat) : Int) ≤ n.mem
 
-theorem placeable_nil (nodes : List NodeSt) : Placeable nodes [] :=
-  ⟨(fun _ h => by cases h), (fun _ _ => by rw [coresOn_nil]; exact nodup_nil), (fun _ _ c hc => by rw [coresOn_nil] at hc; cases hc)⟩
+/-- storage and memory of every node are non-negative (kept by the global invariant) -/
+def NonNeg (nodes : List NodeSt) : Prop := ∀ n ∈ nodes, (0 : Int) ≤ n.lfs ∧ (0 : Int) ≤ n.mem
+
+theorem placeable_nil (nodes : List NodeSt) (hnn : NonNeg nodes) : Placeable nodes [] :=
+  ⟨(fun _ h => by cases h), (fun _ _ => by rw [coresOn_nil]; exact nodup_nil),
+   (fun _ _ c hc => by rw [coresOn_nil] at hc; cases hc), (fun _ _ g hg => by simp [gpusOn] at hg),
+   (fun n hn => by simpa [lfsOn] using (hnn n hn).1), (fun n hn => by simpa [memOn] using (hnn n hn).2)⟩
+
+theorem shareOf_ge_mem (l : List (Nat × Nat)) (p : Nat × Nat) (h : p ∈ l) : p.2 ≤ shareOf l p.1 := by
+  induction l with
+  | nil => cases h
+  | cons q qs ih =>
+    have e : shareOf (q :: qs) p.1 = shareOf [q] p.1 + shareOf qs p.1 := shareOf_append [q] qs p.1
+    rcases mem_cons.mp h with rfl | h
+    · rw [e, shareOf_single]; simp
+    · have := ih h; omega
+
+/-- every GPU `_find_resources` names is FREE in the node map -/
+theorem nodefit_gpu_free (n : NodeSt) (cps gpr lfs mem : Nat) (slots : List Slot) (hfit : NodeFit n cps gpr lfs mem slots)
+    (p : Nat × Nat) (hp : p ∈ allGpus slots) : n.gpus[p.1]? = some Occ.free := by
+  -- the share of `p` is positive
+  have hpos : 0 < p.2 := by
+    obtain ⟨sl, hsl, hps⟩ := mem_flatMap.mp hp
+    obtain ⟨_, _, _, _, hw, hs, hz⟩ := hfit.shape sl hsl
+    rcases Nat.lt_or_ge gpr 16 with hlt | hge
+    · rcases Nat.eq_zero_or_pos gpr with h0 | h0
+      · rw [hz h0] at hps; cases hps
+      · obtain ⟨g, hg⟩ := hs ⟨h0, hlt⟩
+        rw [hg] at hps; simp only [mem_singleton] at hps; subst hps; exact h0
+    · have := (hw hge).2.2 p hps; omega
+  have hshare : 0 < shareOf (allGpus slots) p.1 := Nat.lt_of_lt_of_le hpos (shareOf_ge_mem _ p hp)
+  obtain ⟨o, ho, hd, hle⟩ := hfit.gpus_fit p.1 hshare
+  rw [ho]
+  cases o with
+  | free => rfl
+  | busy => simp [occVal] at hle; omega
+  | down => exact absurd rfl hd
 
 theorem mod_add_inj (o L j k : Nat) (hj : j < L) (hk : k < L) (h : (o + j) % L = (o + k) % L) : j = k := by
   rcases Nat.lt_or_ge j k with hlt | hge
@@ -83,7 +145,7 @@ theorem placeable_extend (nodes : List NodeSt) (hw : NodesWF nodes) (o0 k : Nat)
     (alc new : List Slot) (node : NodeSt) (hnode : nodes[(o0 + k) % nodes.length]? = some node)
     (hp : Placeable nodes alc)
     (hv : ∀ sl ∈ alc, ∃ j, j < k ∧ ∃ n, nodes[(o0 + j) % nodes.length]? = some n ∧ n.index = sl.node)
-    (cps gpr lfs mem : Nat) (hfit : NodeFit node cps gpr lfs mem new) :
+    (cps gpr lfs mem : Nat) (hfit : NodeFit node cps gpr lfs mem new) (hnn : NonNeg nodes) :
     Placeable nodes (alc ++ new)
     ∧ ∀ sl ∈ alc ++ new, ∃ j, j < k + 1 ∧ ∃ n, nodes[(o0 + j) % nodes.length]? = some n ∧ n.index = sl.node := by
   have hnew_node : ∀ sl ∈ new, sl.node = node.index := fun sl hs => (hfit.shape sl hs).1
@@ -99,7 +161,16 @@ theorem placeable_extend (nodes : List NodeSt) (hw : NodesWF nodes) (o0 k : Nat)
     unfold coresOn
     rw [filter_eq_nil_iff.mpr (fun sl hs => by simpa using hold sl hs)]
     rfl
-  refine ⟨⟨?_, ?_, ?_⟩, ?_⟩
+  have hsame : ∀ n ∈ nodes, n.index = node.index → n = node := by
+    intro n hn hi
+    obtain ⟨a, ha⟩ := getElem?_of_mem hn
+    have := pos_of_index nodes hw _ _ n node ha hnode hi
+    rw [this] at ha; rw [hnode] at ha; exact (Option.some.inj ha).symm
+  have hfn_old : alc.filter (fun sl => sl.node = node.index) = [] := filter_node_nil alc node.index hold
+  have hfn_new : new.filter (fun sl => sl.node = node.index) = new := filter_node_all new node.index hnew_node
+  have hfn_other : ∀ j, j ≠ node.index → new.filter (fun sl => sl.node = j) = [] :=
+    fun j hj => filter_node_nil new j (fun sl hs e => hj (by rw [← e, hnew_node sl hs]))
+  refine ⟨⟨?_, ?_, ?_, ?_, ?_, ?_⟩, ?_⟩
   · intro sl hs
     rcases mem_append.mp hs with h | h
     · exact hp.onNode sl h
@@ -123,6 +194,58 @@ theorem placeable_extend (nodes : List NodeSt) (hw : NodesWF nodes) (o0 k : Nat)
       rw [hsame]; exact hfit.cores_free c hc
     · rw [coresOn_other new node.index n.index hnew_node hi, append_nil] at hc
       exact hp.free n hn c hc
+  · -- GPUs
+    intro n hn g hg
+    rw [gpusOn_append] at hg
+    by_cases hi : n.index = node.index
+    · have hnn' := hsame n hn hi
+      subst hnn'
+      simp only [gpusOn, hfn_old, hfn_new, flatMap_nil, nil_append] at hg
+      obtain ⟨sl, hsl, hgs⟩ := mem_flatMap.mp hg
+      obtain ⟨p, hp', rfl⟩ := mem_map.mp hgs
+      exact nodefit_gpu_free n cps gpr lfs mem new hfit p (mem_flatMap.mpr ⟨sl, hsl, hp'⟩)
+    · simp only [gpusOn, hfn_other n.index hi, flatMap_nil, append_nil] at hg
+      exact hp.gfree n hn g hg
+  · -- storage
+    intro n hn
+    rw [lfsOn_append]
+    by_cases hi : n.index = node.index
+    · have hnn' := hsame n hn hi
+      subst hnn'
+      have h0 : lfsOn alc n.index = 0 := by simp [lfsOn, hfn_old]
+      have h1 : lfsOn new n.index = lfs * new.length := by
+        simp only [lfsOn, hfn_new]
+        have : new.map (·.lfs) = replicate new.length lfs := by
+          apply eq_replicate_iff.mpr
+          refine ⟨by simp, ?_⟩
+          intro x hx; obtain ⟨sl, hsl, rfl⟩ := mem_map.mp hx; exact (hfit.shape sl hsl).2.2.1
+        rw [this, sum_replicate_nat, Nat.mul_comm]
+      rw [h0, h1, Nat.zero_add]
+      by_cases hz : lfs = 0
+      · subst hz; simpa using (hnn n hn).1
+      · exact hfit.lfs_fit hz
+    · have : lfsOn new n.index = 0 := by simp [lfsOn, hfn_other n.index hi]
+      rw [this, Nat.add_zero]; exact hp.lfsFit n hn
+  · -- memory
+    intro n hn
+    rw [memOn_append]
+    by_cases hi : n.index = node.index
+    · have hnn' := hsame n hn hi
+      subst hnn'
+      have h0 : memOn alc n.index = 0 := by simp [memOn, hfn_old]
+      have h1 : memOn new n.index = mem * new.length := by
+        simp only [memOn, hfn_new]
+        have : new.map (·.mem) = replicate new.length mem := by
+          apply eq_replicate_iff.mpr
+          refine ⟨by simp, ?_⟩
+          intro x hx; obtain ⟨sl, hsl, rfl⟩ := mem_map.mp hx; exact (hfit.shape sl hsl).2.2.2.1
+        rw [this, sum_replicate_nat, Nat.mul_comm]
+      rw [h0, h1, Nat.zero_add]
+      by_cases hz : mem = 0
+      · subst hz; simpa using (hnn n hn).2
+      · exact hfit.mem_fit hz
+    · have : memOn new n.index = 0 := by simp [memOn, hfn_other n.index hi]
+      rw [this, Nat.add_zero]; exact hp.memFit n hn
   · intro sl hs
     rcases mem_append.mp hs with h | h
     · obtain ⟨j, hj, rest⟩ := hv sl h
@@ -133,9 +256,6 @@ end RPVerif.Sched
 
 namespace RPVerif.Sched
 open List
-
-/-- storage and memory of every node are non-negative (kept by the global invariant) -/
-def NonNeg (nodes : List NodeSt) : Prop := ∀ n ∈ nodes, (0 : Int) ≤ n.lfs ∧ (0 : Int) ≤ n.mem
 
 theorem nlinv_skip (nodes : List NodeSt) (o0 k : Nat) (it : IterSt) (h : NLInv nodes o0 k it) :
     NLInv nodes o0 (k + 1) { it with offset := (it.offset + 1) % nodes.length } := by
@@ -189,7 +309,7 @@ theorem nodeLoop_placeable (c : Cfg) (nodes : List NodeSt) (r : Req) (cps spn re
               by_cases h4 : ¬ c.scattered = true
               · rw [if_pos h4] at h
                 refine ih (k + 1) _ it' (by omega) ?_ h
-                exact nlinv_next nodes o0 k it [] req true false hi (placeable_nil nodes) (fun sl hs => by cases hs)
+                exact nlinv_next nodes o0 k it [] req true false hi (placeable_nil nodes hnn) (fun sl hs => by cases hs)
               · rw [if_neg h4] at h
                 refine ih (k + 1) _ it' (by omega) ?_ h
                 exact nlinv_next nodes o0 k it it.alc it.rem it.isFirst (it.isLast || decide (it.rem < spn)) hi hi.place
@@ -200,7 +320,7 @@ theorem nodeLoop_placeable (c : Cfg) (nodes : List NodeSt) (r : Req) (cps spn re
               | some new =>
                 have hfit := (findResources_fit node _ cps r.gpr r.lfs r.mem _ new hcps
                                 (fun _ => (hnn node hmem).1) (fun _ => (hnn node hmem).2) hfr).1
-                have hext := placeable_extend nodes hw o0 k hklt it.alc new node hnode' hi.place hi.visited cps r.gpr r.lfs r.mem hfit
+                have hext := placeable_extend nodes hw o0 k hklt it.alc new node hnode' hi.place hi.visited cps r.gpr r.lfs r.mem hfit hnn
                 simp only [resList] at h
                 by_cases h5 : it.rem - new.length = 0
                 · have h' : (Except.ok { alc := it.alc ++ new, rem := 0, isFirst := false,
